@@ -51,10 +51,26 @@ func buildVC(o *Obligation, assumptions []*Term, modelVars []*Term) string {
 	defer vcMu.Unlock()
 	var asserts []*Term
 	asserts = append(asserts, curAxioms...)
-	asserts = append(asserts, assumptions[:o.NAssume]...)
+	hyps := assumptions[:o.NAssume]
+	goal := o.Goal
+	if !o.Vacuity {
+		// skolemise the universally quantified parts of the goal ourselves and add, for every
+		// quantified hypothesis over binders of the same names, its instance at those constants
+		// (instances of hypotheses are consequences: sound; it spares the solvers the matching)
+		var sets []map[string]*Term
+		goal = skolemGoal(goal, &sets)
+		if len(sets) > 0 && len(sets) <= 4 {
+			hs := make([]*Term, len(hyps))
+			for i, h := range hyps {
+				hs[i] = addInstances(h, sets)
+			}
+			hyps = hs
+		}
+	}
+	asserts = append(asserts, hyps...)
 	asserts = append(asserts, o.PC)
 	if !o.Vacuity {
-		asserts = append(asserts, Not(o.Goal))
+		asserts = append(asserts, Not(goal))
 	}
 	order, _ := collect(asserts)
 	sax := stringAxioms(order)
@@ -338,3 +354,77 @@ func dischargeAll(res *FuncResult, dir string, timeoutS, seed, par int, modelVar
 }
 
 var noRetry bool
+
+func boundBase(b *Term) string {
+	if i := strings.Index(b.Name, "?"); i >= 0 {
+		return b.Name[:i]
+	}
+	return b.Name
+}
+
+// skolemGoal replaces universally quantified variables in positive positions of the goal by fresh constants.
+func skolemGoal(g *Term, sets *[]map[string]*Term) *Term {
+	switch g.Op {
+	case "forall":
+		m := map[*Term]*Term{}
+		set := map[string]*Term{}
+		for _, b := range g.Bvars {
+			c := Fresh("sk$"+boundBase(b), b.Sort)
+			m[b] = c
+			set[boundBase(b)+":"+b.Sort.String()] = c
+		}
+		*sets = append(*sets, set)
+		return skolemGoal(Subst(g.Args[0], m), sets)
+	case "and":
+		if len(g.Args) > 4 {
+			return g
+		}
+		out := make([]*Term, len(g.Args))
+		for i, a := range g.Args {
+			out[i] = skolemGoal(a, sets)
+		}
+		return And(out...)
+	case "=>":
+		return Implies(g.Args[0], skolemGoal(g.Args[1], sets))
+	}
+	return g
+}
+
+// addInstances: every quantified subformula (reached through Boolean structure) whose binders all have a
+// skolem constant of the same name and sort is conjoined with its instance (an equivalent formula).
+func addInstances(t *Term, sets []map[string]*Term) *Term {
+	switch t.Op {
+	case "forall":
+		out := []*Term{t}
+		for _, set := range sets {
+			m := map[*Term]*Term{}
+			ok := true
+			for _, b := range t.Bvars {
+				c, has := set[boundBase(b)+":"+b.Sort.String()]
+				if !has {
+					ok = false
+					break
+				}
+				m[b] = c
+			}
+			if ok {
+				out = append(out, Subst(t.Args[0], m))
+			}
+		}
+		return And(out...)
+	case "and", "or", "=>", "not":
+		args := make([]*Term, len(t.Args))
+		ch := false
+		for i, a := range t.Args {
+			args[i] = addInstances(a, sets)
+			if args[i] != a {
+				ch = true
+			}
+		}
+		if !ch {
+			return t
+		}
+		return rebuild(t, args)
+	}
+	return t
+}
